@@ -27,6 +27,7 @@ inductive SEv
   | err (k : SKind) (key : Nat)
   | spawned (id defKey : Nat)
   | despawned (id : Nat)
+  | capped (k : SKind) (key : Nat)
 deriving DecidableEq, Repr, Inhabited
 
 def upd {β : Type} (f : Nat → β) (a : Nat) (b : β) : Nat → β := fun x => if x = a then b else f x
@@ -38,6 +39,7 @@ structure SSt where
   sdef : Nat → Nat := fun _ => 0                          -- definition a spawned system was made from
   nspawn : Nat := 0
   wq : List SOp := []                                     -- the world command queue (exclusive systems queue here)
+  ncalls : Nat := 0                                       -- harness: number of calls made (scenarios are capped)
   log : List SEv := []
 
 instance : Inhabited SSt := ⟨{}⟩
@@ -60,6 +62,14 @@ def report (r : SSt × Option Nat) (c : SCall) : SSt :=
   | some v => r.1.emit (.ret c.kind c.key v)
   | none => r.1.emit (.err c.kind c.key)
 
+/-- Harness cap on the number of calls per scenario (both sides skip a call operation beyond it). -/
+def capMax : Nat := 150
+
+/-- A call *operation* of a script or of the top level: skipped beyond the cap, otherwise performed and reported. -/
+def tryCall (k : SSt → Task → SSt × Option Nat) (st : SSt) (c : SCall) : SSt :=
+  if st.ncalls ≥ capMax then st.emit (.capped c.kind c.key)
+  else report (k { st with ncalls := st.ncalls + 1 } (.call c)) c
+
 /-- Runs the body of a system whose `Local` counter is `cnt`. An ordinary system collects its commands in its own buffer:
     after the body the world queue is flushed, then the buffer is applied, each command followed by a flush. An exclusive
     system calls directly (`d`) and queues on the world queue, which is flushed when it returns — or earlier, by the
@@ -71,7 +81,7 @@ def runBody (k : SSt → Task → SSt × Option Nat) (p : SProg) (st : SSt) (kin
   if p.excl kind defKey then
     let st := ops.foldl (fun (st : SSt) op =>
       match op with
-      | .d c => report (k st (.call c)) c
+      | .d c => tryCall k st c
       | other => { st with wq := st.wq ++ [other] }) st
     ((k st .flush).1, input * 100 + cnt)
   else
@@ -90,7 +100,7 @@ def exec (p : SProg) : Nat → SSt → Task → SSt × Option Nat
     | batch => (batch.foldl (fun (st : SSt) op => (exec p fuel (exec p fuel st (.apply op)).1 .flush).1) { st with wq := [] }, none)
   | fuel + 1, st, .apply op =>
     match op with
-    | .q c => (report (exec p fuel st (.call c)) c, none)
+    | .q c => (tryCall (exec p fuel) st c, none)
     | .w v => (st.emit (.write v), none)
     | .d _ => (st, none)
   | fuel + 1, st, .call c =>
@@ -131,15 +141,11 @@ inductive STop
   | despawn (id : Nat)
 deriving DecidableEq, Repr, Inhabited
 
-def fuelMax : Nat := 64
+def fuelMax : Nat := 4000
 
 def runTop (p : SProg) (st : SSt) : STop → SSt
   | .spawn d => ({ st with sstore := upd st.sstore st.nspawn (some (some 0)), sdef := upd st.sdef st.nspawn d, nspawn := st.nspawn + 1 } : SSt).emit (.spawned st.nspawn d)
-  | .call c =>
-    let r := call p fuelMax st c
-    match r.2 with
-    | some v => r.1.emit (.ret c.kind c.key v)
-    | none => r.1.emit (.err c.kind c.key)
+  | .call c => tryCall (exec p fuelMax) st c
   | .despawn id => ({ st with sstore := upd st.sstore id none } : SSt).emit (.despawned id)
 
 end Cobweb.Sc
